@@ -11,6 +11,7 @@ mod c07;
 mod c08;
 mod c10;
 mod c12;
+mod c18;
 
 fn main() {
     let args = common::parse_args();
@@ -19,6 +20,7 @@ fn main() {
         "C01" => c01::run(&args),
         "C10" => c10::run(&args),
         "C07" => c07::run(&args),
+        "C18" => c18::run(&args),
         "C08" => c08::run(&args),
         "C12" => c12::run(&args),
         "C02" => c02::run(&args),
